@@ -38,7 +38,7 @@ CLAIMED['C01'] = dict(
    text=('Theorems for every state and argument (closed under the global context): THE FRAME THEOREM - across any RPC (all 17 kinds, any '
          'arguments, any Pythia answer, success or failure) every trial stored before and after the call has evolved by a legal transition '
          '(same id and parameters, state moved along REQUESTED -> ACTIVE -> STOPPING -> SUCCEEDED | INFEASIBLE or stayed, completed trials '
-         'keep state, measurements and final measurement), for every state with unique study keys and trial ids (C01_frame), and these '
+         'keep state, measurements and final measurement; a trial that is not REQUESTED keeps its owner), for every state with unique study keys and trial ids (C01_frame), and these '
          'invariants hold in every reachable state, so the statement holds along every history (C01_frame_along_every_history; proved by a '
          'tracking relation composed over the calls of each handler, with a pool invariant through the assignment loop of SuggestTrials). '
          'Also: a call on a missing study / missing trial, any mutation of a non-active study, and Complete / Measure / Stop / CheckEarlyStop on '
@@ -54,7 +54,9 @@ CLAIMED['C02'] = dict(
          'owned by the asking worker; unless it carries the error flag it returns exactly min(count, own ACTIVE + queued REQUESTED + '
          'delivered) trials, namely the first `count` of: own ACTIVE trials, then queued REQUESTED trials re-assigned to the worker, then '
          'new trials numbered max+1, max+2, ...; every trial stored before is still stored and unchanged up to metadata unless it was '
-         'REQUESTED and has been assigned to the asking worker - no ACTIVE trial changes owner. SURPLUS (C02_surplus_queued_and_ids_fresh): '
+         'REQUESTED and has been assigned to the asking worker - no ACTIVE trial changes owner. NO TRIAL IS EVER ASSIGNED TO TWO WORKERS '
+         '(C02_owner_never_changes): along every history and for every RPC of any kind, a stored trial that is not REQUESTED keeps its '
+         'owner and never becomes REQUESTED again. SURPLUS (C02_surplus_queued_and_ids_fresh): '
          'when own + queued do not cover the request, the stored trials afterwards are the old ones followed by exactly one new trial per '
          'suggestion, those not handed out REQUESTED and unowned, with ids max+1 .. max+|suggestions| in creation order, each larger '
          'than every earlier id (C02_new_ids_above, C02_new_ids_increase). The numbering and unique-id hypotheses are invariants of every '
@@ -74,9 +76,14 @@ CLAIMED['C06'] = dict(
          'normally leaves no suggestion operation unfinished, and so does every history of normally ending RPCs from the initial state '
          '(C06_never_wedged, C06_never_wedged_history; proved by showing that every normally ending path of SuggestTrials after the creation '
          'of its operation record runs finish_op - induction through the assign / create / remain loops - and that no other handler writes '
-         'an operation). PARTIAL: RPCs that end with an error after the record exists (only datastore errors, unreachable on well-formed '
-         'states) and the early-stopping operations are decided by correspondence + monitor (after every step: no unfinished suggestion '
-         'operation, no ACTIVE early-stopping operation, algorithm reached again). Defects found and repaired by fix: commits.'),
+         'an operation). EARLY STOPPING (C06_early_stop_operation_never_left_active, ..._quiet_along_every_history, '
+         '..._reaches_the_algorithm): no RPC of any kind, whatever the algorithm answers (decisions for this trial, other trials, none; a '
+         'failure; metadata that cannot be stored) and HOWEVER IT ENDS, leaves an ACTIVE early-stopping operation behind, along every '
+         'history; in such a state a check on a live trial reaches the algorithm again and a failing algorithm\'s error is what the caller '
+         'gets. Proving it exposed a genuine defect (metadata naming a missing trial left the operation ACTIVE for ever), repaired by a '
+         'fix: commit. PARTIAL: suggestion RPCs that end with an error after the record exists (only datastore errors, unreachable on '
+         'well-formed states) are decided by correspondence + monitor (after every step: no unfinished suggestion operation, no ACTIVE '
+         'early-stopping operation, algorithm reached again). Defects found and repaired by fix: commits.'),
    note=SVC_NOTE, technique='Rocq proof (state invariant by structural induction over handler programs) + trace-level correspondence + fault-sequence monitor', design='5/C06')
 CLAIMED['C07'] = dict(
    text=('Both backends are tied by trace-level correspondence to ONE model of the DataStore contract, so backend equivalence is equality of '
@@ -111,11 +118,16 @@ CLAIMED['C04'] = dict(
    text=('Theorems for ANY number of concurrent calls and ANY schedule (closed under the global context): trial ids stay unique per study '
          '(C04_unique_ids_all_interleavings: every datastore primitive preserves it); every handler obeys the lock discipline (operation '
          'lock first, study/owner lock innermost, LIFO release, returns holding nothing: C04_lock_discipline) and therefore no reachable '
-         'configuration is deadlocked (C04_no_deadlock). The full serialisability statement is REFUTED on the model by a kernel-evaluated '
+         'configuration is deadlocked (C04_no_deadlock). ISOLATION (C04_different_studies_any_schedule): two calls of any kind (except study '
+         'creation / deletion / listing) that address different studies end with the same replies, owners and stored data under EVERY pair '
+         'of complete schedules, hence every interleaving equals both serial orders (every datastore primitive reads and writes only the '
+         'node of its study; each thread is simulated by the same thread running alone). For calls on the SAME study the full '
+         'serialisability statement is REFUTED on the model by a kernel-evaluated '
          'schedule (C04_full_refuted: the study guard is evaluated before the lock) = known finding C04-guard-outside-lock; a general '
-         'serialisability theorem for the remaining call pairs is NOT proved: it is decided by exhaustive-per-pair / random schedule '
+         'serialisability theorem for the remaining same-study pairs is NOT proved: it is decided by exhaustive-per-pair / random schedule '
          'exploration of real threads under a deterministic scheduler, compared with all serial orders of the real implementation (up to '
-         'renumbering of new trials) and with the model replayed on the same schedule. Two families of real races were found and repaired '
+         'renumbering of new trials) and with the model replayed on the same schedule, plus a focused stage: every pair of trial-level calls '
+         'on the same trial under every schedule of the form "A takes j steps, B runs to completion, A finishes". Two families of real races were found and repaired '
          '(fix: commits).'),
    note=SVC_NOTE + ' Scheduling points are datastore primitive calls and servicer-lock acquisitions; interleavings inside a datastore primitive, inside SQLite/gRPC and the GIL are not explored; at most 3 threads in the exploration (the theorems are unbounded).',
    technique='Rocq proof (invariant over all interleavings; lock-order argument) + deterministic-scheduler exploration against serial orders', design='5/C04')
@@ -135,9 +147,14 @@ CLAIMED['C09'] = dict(
          'types, single/multiple parent values) satisfy from_proto (to_proto p) = p for every well-formed p (C09_parameter_config_roundtrip, '
          'nested induction); enum tables for scale / external type / study state / trial status round-trip (tables regenerated from the '
          'source by the translator); Measurement: metrics and steps exact, elapsed seconds within one nanosecond in exact arithmetic. '
-         'REFUTED: UNIFORM_DISCRETE scale is not transmitted (known finding). Trial, TrialSuggestion, MetadataDelta, Suggest/EarlyStop '
-         'request+decision and StudyConfig converters are NOT modelled: they are decided by round-trip monitors on the real converters '
-         '(partial). Four real defects found and repaired (fix: commits); known findings: metric order in StudyConfig, UNIFORM_DISCRETE.'),
+         'REFUTED: UNIFORM_DISCRETE scale is not transmitted (known finding). TRIAL (C09_trial_roundtrip): a vz.Trial whose description / '
+         'worker are not the empty string and whose flags are consistent comes back from to_proto / from_proto as an equal object (id, '
+         'description, worker, requested flag, infeasibility reason incl. the empty one, status, parameters by value, measurements, '
+         'creation / completion time); the unguarded statement is REFUTED (C09_trial_roundtrip_full_refuted: description \'\' comes back '
+         'as None = known finding C09-empty-string-becomes-none); the model of TrialConverter.to_proto is compared with the real converter '
+         'on generated trials (exact on dyadic times). TrialSuggestion, MetadataDelta, Suggest/EarlyStop request+decision and StudyConfig '
+         'converters, and the metadata of a Trial, are NOT modelled here: they are decided by round-trip monitors on the real converters '
+         '(partial). Four real defects found and repaired (fix: commits); known findings: metric order in StudyConfig, UNIFORM_DISCRETE, empty strings.'),
    note=BASE_TB + ' Exact rational arithmetic stands for IEEE doubles (bit-exact agreement is checked on dyadic inputs only); MetricInformation min/max values, fractional step counts and empty descriptions are not round-tripped by the code and are outside the generator.',
    technique='Rocq proof (nested structural induction; translator-generated enum tables) + vm_compute correspondence + round-trip monitors', design='5/C09')
 CLAIMED['C16'] = dict(
@@ -159,9 +176,14 @@ CLAIMED['C17'] = dict(
          'names are exactly the trial\'s names and every value is a cast of the trial\'s value (C17_presented_exactly_trial_parameters), '
          'otherwise the result is an error (C17_unconverted_parameter_is_an_error); name[i] parsing and grouping in numeric index order as a '
          'permutation (C17_indexed_name_parsed, C17_group_in_index_order). REFUTED: a plain parameter x is overwritten when x[0] exists '
-         '(known finding). The characterisation "active parameters only" is decided by the correspondence of the BFS model with '
-         'StudyConfig.trial_parameters and by an oracle that recomputes activity from the space (partial: no theorem relates the BFS to the '
-         'declarative activity relation).'),
+         '(known finding). ACTIVE PARAMETERS ONLY: for every conditional forest (any depth, the same name in several subtrees) and every '
+         'trial, each presented (name, value) belongs to a node that is active under the declarative activity relation (a root the trial '
+         'carries, or a child of an active node whose matching values contain the trial\'s value for it) and is the trial\'s value cast to '
+         'that node\'s type (C17_presented_are_active); a trial carrying a parameter that is not an active parameter is an error '
+         '(C17_inactive_parameter_is_an_error). Proving this exposed a genuine defect (children of an inactive config were queued: an '
+         'inactive grandchild was presented when its parent\'s name also occurs in the active subtree), repaired by a fix: commit. Tie: the '
+         'BFS model is compared with StudyConfig.trial_parameters on generated spaces (incl. same names in several subtrees) and an oracle '
+         'recomputes activity from the space.'),
    note=BASE_TB + ' Numeric strings cast "for benchmark use" are outside the model; doubles are exact rationals.',
    technique='Rocq proof (invariant of the BFS worklist, stable-sort lemma) + vm_compute correspondence', design='5/C17')
 CONV_NOTE = BASE_TB + (' Decoding (DefaultModelInputConverter._to_parameter_value, one-hot un-embedding, label sign) is a hand-written model over exact '
